@@ -7,6 +7,10 @@ R06.2 compression tables agree
 R06.3 field widths and sigils agree (PHYLIP name field; GDE, FASTA sigils; PAML/PHYLIP header)
 R06.4 FASTA record boundaries are line-anchored in every FASTA parser
 R06.5 label handling agrees across the FASTA parsers
+
+Added in build round 2 (see DESIGN.md section 3, round-2 table):
+R06.6 iter_splitlines (chunked line streaming) is chunk-size independent by construction: the incomplete tail of every chunk is withheld and prepended to ...
+R06.7 writers that wrap a sequence into fixed-width blocks cover the whole sequence: the loop bound of the wrapping helper derives from the length of the ...
 """
 
 from __future__ import annotations
